@@ -241,9 +241,15 @@ func Parse(b []byte) (Pkt, int, error) {
 	case PUBACK, PUBREC, PUBCOMP, UNSUBACK:
 		wantFlags(0)
 		p.ID = r.u16()
+		if p.ID == 0 {
+			p.bad("%s with packet id 0", p.Name())
+		}
 	case PUBREL:
 		wantFlags(2)
 		p.ID = r.u16()
+		if p.ID == 0 {
+			p.bad("PUBREL with packet id 0")
+		}
 	case SUBSCRIBE:
 		wantFlags(2)
 		p.ID = r.u16()
